@@ -34,6 +34,8 @@ from rulelib import (
     bool_facts, control_terms, facts_at, fmt_path, must_pass, outcome_facts, return_assignments, succeeded_calls, failed_calls,
 )
 import c09
+import c17
+import c02
 
 X = "net::xfr::protocol::"
 
@@ -59,6 +61,11 @@ def run(ctx):
     c09.rule_rbk(ctx, F)
     c09.rule_drop(ctx, F)
     c09.rule_ver(ctx, F)
+    # serial numbers of zone versions are ordered in sequence space wherever a transfer decides by them (shared with C17)
+    c17.rule_ixfr(ctx, F)
+    c17.rule_use(ctx, F)
+    # a transfer message longer than 16 KiB never carries a compression pointer to an offset it cannot express (shared with C02)
+    c02.rule_ptr14(ctx, F)
 
 
 def rule_chk(ctx, F):
